@@ -45,8 +45,9 @@ Inductive c18case :=
 | CFault (f : fobs) (health : N)
 | CSeq (fs : list fobs) (valid : list N) (health : N)
   (* [health]/[hans]: status and raw bytes of GET /health over a complete TLS
-     handshake on a fresh connection, after the fault *)
-| CTls (ans : list N) (e : endst) (alive : bool) (probe : list N) (health : N) (hans : list N)
+     handshake on a fresh connection, after the fault; [health2]: the same
+     once more after a pause (= [health] where there is no second round) *)
+| CTls (ans : list N) (e : endst) (alive : bool) (probe : list N) (health health2 : N) (hans : list N)
   (* [peers] clients began a TLS handshake and stall, still connected, while
      the listener is probed: plain-bytes liveness ([alive], [probe]) and the
      full-handshake health request twice ([h1] with its bytes [hans], [h2]);
@@ -163,14 +164,14 @@ Definition judge (c : c18case) : N :=
                 (worst (if forallb (N.eqb 200) valid then V_AGREE else V_VIOLATION)
                        (judge_health (mode_of f0) health))
       end
-  | CTls ans e alive probe health hans =>
+  | CTls ans e alive probe health health2 hans =>
       (* the TLS acceptor is still accepting and negotiating, whatever it
          wrote before a handshake completed is TLS records, and a client that
          completes a handshake on a fresh connection is answered 200 *)
       if alive
          && (is_nil ans || valid_tls_answer ans || is_gone e)
          && (is_nil probe || valid_tls_answer probe)
-         && (health =? 200) && (health_expected Detached =? 200)
+         && (health =? 200) && (health2 =? 200) && (health_expected Detached =? 200)
          && match parse_answer false false hans with
             | AComplete sts => list_eqb N.eqb sts [200]
             | _ => false
